@@ -334,6 +334,11 @@ func (w *c15World) apply(op string, quiet bool) {
 			if n > w.cfg.Cap {
 				w.failf("over-capacity", "Len() = %d exceeds capacity %d", n, w.cfg.Cap)
 			}
+			// (the capacity accessor is part of the same read-only query: an open cache reports the bound it was built with;
+			// after Close it is only required not to panic or block)
+			if cp := w.c.Capacity(); cp != w.cfg.Cap && !m.closed {
+				w.failf("capacity", "Capacity() = %d, the cache was built with %d", cp, w.cfg.Cap)
+			}
 		case "tick":
 			vclock.Advance((c15Expiry + 1) * time.Second)
 		case "close":
